@@ -2,7 +2,7 @@
 """setup_cmd: nothing to build (Python scripts + pre-installed verus / kani); verify the tools are present."""
 import shutil, subprocess, sys
 ok = True
-for t in ('verus', 'cargo', 'rustc', 'rsync'):
+for t in ('verus', 'cargo', 'rustc', 'rsync', 'python3-vt'):
     if not shutil.which(t):
         print('missing tool:', t); ok = False
 p = subprocess.run(['cargo', 'kani', '--version'], capture_output=True, text=True)
